@@ -99,7 +99,10 @@ claim("C06",
       "proved (oracle only); RangeListManager is executed, not modelled.",
       "Lean 4 proof (partial: dependency-root coverage + value-level guard soundness of every expression form) + update-vs-create oracle under the real runtime")
 claim("C07",
-      "PARTIAL proof. Lean 4 theorems: advertised_tag_iff (GE/Thm/C05Tag.lean) - over the model of the whole parse-side traversal and the collector, a data field is "
+      "PARTIAL proof. Lean 4 theorems: bindmap_refines (GE/Thm/C07Tag.lean) - over the tag-level model GE/Model/TagSem.lean, if the data change only in what an advertised "
+      "field f can influence, running exactly the updaters of f (bmUpdate: the static text / attribute bindings that read f) on any tree rendering the old data gives, up to "
+      "node creation times, the tree of a fresh creation; a field read inside a wx:if chain or a wx:for is not advertised (not_advertised_of_dynOccurs); the model's advertised "
+      "set and bmUpdate are compared with the generated map B and ProcGenWrapper.bindingMapUpdate (corr:tagsem, steps `bindmap`). advertised_tag_iff (GE/Thm/C05Tag.lean) - over the model of the whole parse-side traversal and the collector, a data field is "
       "advertised by the binding map iff the template has no include, the field occurs in no structural value (wx:if / wx:for / is / data / slot name ...) and in no value "
       "inside a wx:if / wx:for / template-is / slot element, and it occurs in some other value; advertised_iff, disabled_stays_disabled, size_eq_count about the collector "
       "state machine (any operation order). The traversal model is tied by corr:tag_scopes (collected flag of every value) and by comparing its advertised set with the "
